@@ -105,3 +105,14 @@ Definition deposit_lags (c issuer : string) (z : zone) : list (string * string) 
 (** the interest variable is (re)defined by AddCashFlow only when absent or trivially defined *)
 Definition int_fresh (c : string) (s : sector) : bool :=
   match lookup_var (int_name c) (vars s) with None => true | Some e => renders_empty e end.
+
+(** Variant for an implementation that refuses to generate equations unless exactly one non-market
+    sector of the zone is the issuer (proposed fix D22: LogicError before anything is changed). *)
+Definition deposit_generate_checked (c issuer : string) (mk : nat) (z : zone) : result zone :=
+  match split_sid mk z with
+  | None => Err OutOfModel
+  | Some (_, m, _) =>
+      if negb (is_market m) then Err OutOfModel
+      else if Nat.eqb (List.length (filter (dep_issuer issuer) z)) 1 then deposit_generate c issuer mk z
+      else Err LogicError
+  end.
